@@ -4,7 +4,7 @@ CHECKS = {
         'Add*Decorators / Run / RunHandlers) and ALL deliveries about a hand-written executable model of the Router\'s registration state and dispatch (message/router.go, router_context.go), '
         'layered on the C02 model of handleMessage: a message on (subscriber, topic) is processed by exactly the started handlers subscribed there, each once, by its own function only; '
         'one Publish call on that handler\'s publisher and topic with the chain\'s outputs unmodified in order and nowhere else; outputs in a handler without publisher (AddNoPublisherHandler or a nil publisher, which gets the same stand-in: nothing is ever called on nil) => Nack and no Publish; '
-        'context values inside the function and on produced messages, the own context of each produced message (user values, cancellation) untouched; programs include Handler.Stop, re-added names and failing decorator constructors. Tied to the code on every run: ~500 generated programs (1..6 handlers sharing/not sharing subscribers, topics, publishers; '
+        'context values inside the function and on produced messages, the own context of each produced message (user values, cancellation) untouched; programs include Handler.Stop, re-added names and failing decorator constructors. Run/AddPlugin/Handlers() are modelled around the registration machine (plugins once, in order, before any handler, an error aborts Run; a Router program amounts to a Wiring program). Tied to the code on every run: ~500 generated programs (1..6 handlers sharing/not sharing subscribers, topics, publishers; '
         'registrations before/after Run and RunHandlers; concurrent deliveries; re-delivered objects) run on a real Router; every per-copy trace is compared with the model and judged by the proved acceptor c08_monitor.'),
   note=('Trusted: Coq kernel + vm_compute; Go closures/recover/goroutine dispatch as modelled; the scripted fan-out subscriber, publishers, tagging middlewares/decorators and the interning of strings; '
         'internal.StructName is exercised, not modelled. As coded, an EMPTY handler value (e.g. the publish topic of a no-publisher handler) is not set in the context, so a value already present '
